@@ -215,3 +215,101 @@ PROPS["C12"] = dict(
               ("stacked_limits", 1000), ("saturation_cases", 1), ("hostile_limited", 10000)],
     stages=lambda tier: [native()],
 )
+
+import derive_runner  # noqa: E402
+
+PROPS["C05"] = dict(
+    level="exploration",
+    rule="generated type definitions over the derive attribute grammar (named/tuple/unit structs, enums with index attributes / explicit discriminants "
+         "/ positions / skipped variants incl. all-variants-skipped and empty enums, skip / compact / encoded_as fields, generics with and without "
+         "HasCompact bounds and skip_type_params, repr(transparent) newtypes, single-non-skipped-field structs, CompactAs newtypes, nesting) each with "
+         "a schema computed from the definition text; per type: skipped variants encode to nothing, generated values encode to the declared "
+         "concatenation through all entry points and decode back, hostile strings (mutations, single faults, every leading byte) agree with the "
+         "schema's decoder. Non-trivial = value / string of at least 2 bytes of a definition; distinct = hash set of (type, bytes)",
+    assumptions=COMMON_ASSUMPTIONS + ["the program generator (derivelab/gen.py) emits only definitions inside the documented attribute grammar; a generated "
+                                      "definition that fails to compile is reported only when rustc's diagnostics point into the definition itself",
+                                      "'always terminates' is restated as: the generated program finishes within its CPU budget and does not overflow an 8 MiB stack"],
+    required=[("generated_definitions", 100), ("skipped_variant_encodes", 5), ("unknown_index_rejected", 100), ("hostile_strings", 10000), ("types_exercised", 100)],
+    custom=derive_runner.c05_custom,
+)
+
+PROPS["C06"] = dict(
+    level="exploration",
+    rule="construction histories: random op sequences (push/pop both ends, rotate, make_contiguous, reserve, shrink, truncate, extend, drain, insert) on "
+         "VecDeque and Vec over 16 element types (every primitive included), String capacity histories, ALL insertion orders of up to 6 map/set keys and "
+         "random insert/remove histories up to 2000 keys, LinkedList push/pop/split_off/append, bit sequences at EVERY head offset x length 0..130 x "
+         "8 store/order combinations plus push/pop/truncate/split_off/drain/shift/insert histories, and 13 holder forms (&, &&, &mut, Box, Rc, Arc, Cow "
+         "borrowed/owned, Ref, ...) over 20 types; each state encodes like the freshly built equal value and like the specification, twice. "
+         "Non-trivial = encoding of at least 2 bytes; distinct = hash set of (type, bytes, layout signature or history)",
+    assumptions=COMMON_ASSUMPTIONS + ["BinaryHeap is excluded: its iteration order legitimately depends on history and the property does not list it"],
+    required=[("deque_types_with_wrapped_states", 15), ("deque_layout_signatures", 500), ("map_permutations", 800), ("map_histories", 50),
+              ("list_histories", 100), ("bit_offset_length_cases", 10000), ("bit_histories", 500), ("holder_cases", 2000), ("vec_histories", 500), ("string_histories", 100)],
+    stages=lambda tier: [native()] + ([miri(shards=16, slow=40)] if tier == "thorough" else []),
+)
+
+PROPS["C13"] = dict(
+    level="exploration",
+    rule="every universe type that declares a maximum / constant encoded length or reports a fixed encoded size (capabilities probed at compile time, "
+         "so newly marked types are picked up): the schema's longest value plus boundary-biased generated values; and generated derive(MaxEncodedLen) "
+         "definitions with compact / encoded_as / skip fields, skipped variants and generic parameters. Non-trivial = encoding of at least 2 bytes; "
+         "distinct = hash set of (type, bytes)",
+    assumptions=COMMON_ASSUMPTIONS + ["the verdict is always a concrete value encoding longer than declared (or unequal for constant / fixed); the schema maximum only picks witnesses"],
+    required=[("types_with_declared_max", 150), ("types_marked_constant", 60), ("types_with_fixed_size", 15), ("max_witnesses", 150), ("bound_attained", 1000), ("generated_definitions", 100)],
+    custom=derive_runner.c13_custom,
+)
+
+PROPS["C15"] = dict(
+    level="exploration",
+    rule="histories of append_or_new calls checked against an executable model (a plain Vec extended by each batch and re-encoded by the specification "
+         "encoder): 16 item types incl. zero-sized and derived, Vec and VecDeque targets, 5 item forms (value, &T, Box<T>, Ref, slice), batch sizes "
+         "0..70, start states empty input / existing sequence near the 63|64 boundary; count-only (zero-sized item) cases on and around 64, 2^14, "
+         "2^30 and 2^32 including batches longer than 2^32; real-payload width changes at 64 and 2^14 (1 GiB payload at 2^30 in thorough); inputs "
+         "that do not begin with a valid count. Non-trivial = history with at least 2 items appended; distinct = hash set of (item type, history, bytes)",
+    assumptions=["the model is the property's own statement: result == encode(original ++ items)"],
+    required=[("appends", 5000), ("histories_with_two_or_more_appends", 500), ("boundary_cases", 100), ("boundary_overflow_rejected", 5),
+              ("invalid_prefix_rejected", 8), ("item_types", 16)],
+    stages=lambda tier: [native()] + ([native(runtime="release", name="release-1gib", shards=1, args=["--mode", "gib"], mem_gb=0)] if tier == "thorough" else []),
+)
+
+PROPS["C16"] = dict(
+    level="exploration",
+    rule="for each declared EncodeLike family (the generic checker's trait bound A: EncodeLike<B> makes an undeclared pair a compile error): generated "
+         "values converted A -> B; bytes of A must equal bytes of B and, where B is decodable, decode as B to the corresponding value. ~75 families: "
+         "references, Box/Rc/Arc/Cow both directions, string / byte-buffer aliases, Vec/slice/VecDeque (wrapped) aliases, map/set/list/heap vs slices of "
+         "tuples, Option/Result/array/tuple (1,2,3,10,18) aliases, Compact/CompactRef, Ref and &Ref, bit types, GenericArray, derive-generated self "
+         "impls, nested compositions. Non-trivial = encoding of at least 2 bytes; distinct = hash set of (family, bytes)",
+    assumptions=["slices of tuples are compared with maps/sets only in the collection's own order; heaps as multisets",
+                 "completeness is audited statically: impl headers mentioning EncodeLike in /repo/src are counted and compared with the recorded list "
+                 "(lib/encode_like_impls.txt); unknown ones are listed as UNAUDITED in the evidence, not judged"],
+    required=[("decoded_as_b", 1000), ("wrapped_deques", 50)],
+    stages=lambda tier: [native()],
+    post="encode_like_audit",
+)
+
+PROPS["C17"] = dict(
+    level="exploration",
+    rule="generated definitions deriving Encode and Decode, judged by a reference model of the index / attribute rules against rustc's JSON diagnostics "
+         "(errors attributed through span expansion chains to the definition's lines): forced collisions for every pair of index sources at 6 "
+         "positions with repaired twins, indices above 255 by attribute / discriminant, 400 (quick) / 5000 (thorough) random enums with indices "
+         "0..=300 from all sources and skips, all small enums (thorough), 56 attribute-conflict placements with single-attribute twins, unions, "
+         "CompactAs shapes, 256/257/300 variant enums. Non-trivial = definition with an attribute or at least 2 variants; distinct = by definition text",
+    assumptions=["a definition is 'rejected with a diagnostic' when rustc emits an error whose span (or macro expansion chain) lies inside the definition",
+                 "valid and faulty definitions are compiled in separate crates; every disagreement is re-compiled alone before it is reported",
+                 "the generator keeps every enum valid at the Rust level (distinct discriminants), so rejections are the macros' own"],
+    required=[("faulty_definitions", 150), ("valid_definitions", 200), ("faulty_rejected_with_attributed_error", 150), ("valid_compiled_clean", 200)],
+    custom=derive_runner.c17_custom,
+)
+
+import c20  # noqa: E402
+
+PROPS["C20"] = dict(
+    level="exploration",
+    rule="one probe source built per feature configuration (3 bases: default std+chain-error / no default features / no_std+chain-error) x optional "
+         "sets (none, all; thorough: each of bit-vec, bytes, generic-array, max-encoded-len, derive alone); each binary replays the same seeded "
+         "corpus (values -> digest of encode / encode_to / using_encoded / encoded_size; valid, mutated, faulty, random, truncated strings -> digest "
+         "of accept/reject, value, consumed, decode_all, depth-limited) for every type available in that configuration; an offline checker joins the "
+         "logs on case id. Non-trivial and distinct = case ids present in at least 2 configuration logs",
+    assumptions=["error descriptions are excluded from digests by construction", "the corpus generator is the harness's own model code, identical in every build"],
+    required=[("configurations_built", 6), ("cases_compared_across_configurations", 20000)],
+    custom=c20.c20_custom,
+)
